@@ -43,20 +43,20 @@ var c16FieldExceptions = map[string]string{
 
 // accessor exceptions "Iface.Method" → reason
 var c16AccessorExceptions = map[string]string{
-	"FileType":                          "file metadata, not content",
-	"ObjectData":                        "provenance of the bytes that were read, not content",
-	"LintConfig.FileVersion":            "version of the enclosing file, written once at the top",
-	"BreakingConfig.FileVersion":        "version of the enclosing file, written once at the top",
-	"CheckConfig.FileVersion":           "version of the enclosing file, written once at the top",
-	"BufGenYAMLFile.FileVersion":        "the writer always emits v2",
-	"BufYAMLFile.TopLevelLintConfig":    "defaults already folded into every ModuleConfig by the reader; the writer re-derives the hoisting",
+	"FileType":                           "file metadata, not content",
+	"ObjectData":                         "provenance of the bytes that were read, not content",
+	"LintConfig.FileVersion":             "version of the enclosing file, written once at the top",
+	"BreakingConfig.FileVersion":         "version of the enclosing file, written once at the top",
+	"CheckConfig.FileVersion":            "version of the enclosing file, written once at the top",
+	"BufGenYAMLFile.FileVersion":         "the writer always emits v2",
+	"BufYAMLFile.TopLevelLintConfig":     "defaults already folded into every ModuleConfig by the reader; the writer re-derives the hoisting",
 	"BufYAMLFile.TopLevelBreakingConfig": "defaults already folded into every ModuleConfig by the reader; the writer re-derives the hoisting",
-	"GenerateConfig.GenerateTypeConfig": "v1-only top-level type filter without a v2 top-level key; bufmigrate moves it to the inputs before writing",
-	"GeneratePluginConfig.Opt":          "the writer reads the underlying opts field to keep the scalar/list form",
-	"GeneratePluginConfig.Strategy":     "the writer reads the underlying strategy pointer to keep 'unset'",
-	"GeneratePluginConfig.RemoteHost":   "derived from Name()",
-	"PluginConfig.Ref":                  "derived from Name() (remote plugins)",
-	"PluginConfig.Type":                 "derived from Name()/Args()",
+	"GenerateConfig.GenerateTypeConfig":  "v1-only top-level type filter without a v2 top-level key; bufmigrate moves it to the inputs before writing",
+	"GeneratePluginConfig.Opt":           "the writer reads the underlying opts field to keep the scalar/list form",
+	"GeneratePluginConfig.Strategy":      "the writer reads the underlying strategy pointer to keep 'unset'",
+	"GeneratePluginConfig.RemoteHost":    "derived from Name()",
+	"PluginConfig.Ref":                   "derived from Name() (remote plugins)",
+	"PluginConfig.Type":                  "derived from Name()/Args()",
 }
 
 func runC16(c *Ctx) {
